@@ -8,6 +8,8 @@ sys.path.insert(0, '.')
 from lib import common
 ok, log = common.coq_build([])          # default target: everything
 print(log[-1500:])
-common.build_harness()
+import glob, os
+for f in sorted(glob.glob('harness/src/bin/*.rs')):
+    common.build_harness(os.path.basename(f)[:-3])
 print("setup: coq ok =", ok)
 PY
